@@ -406,6 +406,11 @@ class Executor:
                     return SV(ty, I(0))
                 return SV(ty, T.sort_of(ty).none)
             if s.kind == 'opt':
+                if s.args[0].kind == 'cfg' and inner.kind in ('int', 'str', 'bool'):
+                    # an optional configuration value used as an optional scalar: None stays None
+                    dt_ = T.sort_of(ty)
+                    got_ = self.coerce(SV(T.CFG, sv.z), inner, what)
+                    return SV(ty, z3.If(sv.z == 0, dt_.none, dt_.some(got_.z)))
                 if T.is_reflike(inner) and T.is_reflike(s.args[0]):
                     return SV(ty, sv.z)
                 if T.sort_of(s) == T.sort_of(ty):
